@@ -253,7 +253,7 @@ def ownership_rule(ctx):
             ctx.instance('C08.R4', (q, fld))
             if q.startswith('AxisPosition.'):
                 continue
-            if (q, fld) in reviewed:
+            if (q, fld) in reviewed or any(f2 == fld and census.only_reached_through(m, q, (q2,)) for (q2, f2) in reviewed):
                 continue
             ctx.report('C08.R4', q, '.%s written outside AxisPosition' % fld,
                        'an axis field is written directly, bypassing the unit/offset/mode conversions', line=line)
